@@ -1,4 +1,4 @@
-import flags_check, latency_check, conn_check, locks_check, auth_check, receipt_check
+import flags_check, latency_check, conn_check, locks_check, auth_check, receipt_check, grid_check
 
 CHECKS = {
     "C08": conn_check.run,
@@ -7,4 +7,5 @@ CHECKS = {
     "C17": flags_check.run,
     "C18": latency_check.run,
     "C19": receipt_check.run,
+    "C20": grid_check.run,
 }
